@@ -234,6 +234,46 @@ def main(argv):
         c.broken = {"file": "translate", "log": tlog[-800:]}
     else:
         proved = c.prove("C20")
+    # 2b. the result -> feedback tables (feedbackmapper.go, regenerated as Gen/Mappers.v): FeedbackAccepted only for verified results
+    tokm, tlogm = c.translate(only=["Gen/Mappers.v"])
+    if not tokm:
+        c.obligations.append("translate Gen/Mappers.v")
+        c.fail_obligation("translate Gen/Mappers.v (feedbackmapper.go left the translated subset)", tlogm[-800:])
+    else:
+        saved_broken = getattr(c, "broken", None)
+        if not c.prove("C20Mappers"):
+            mb = dict(getattr(c, "broken", {"file": "?", "log": ""}))
+            c.broken = saved_broken
+            # search: which enumerated result does a table accept although it does not mean "verified"?
+            body = ("From Coq Require Import List NArith String Bool.\nFrom GV Require Import Base.Ints Gen.Mappers.\nImport ListNotations. Local Open Scope N_scope.\n"
+                    "Definition acc (f : N -> res N) (all : list N) := filter (fun r => match f r with Ok x => N.eqb x FeedbackAccepted | Panic _ => false end) all.\n"
+                    "Definition bad := Eval vm_compute in\n"
+                    "  [filter (fun r => negb (existsb (N.eqb r) [HandleProposedHeaderAccepted; HandleProposedHeaderAlreadyStored])) (acc aav_map_ph all_HandleProposedHeaderResult);\n"
+                    "   filter (fun r => negb (N.eqb r HandleProposedHeaderAccepted)) (acc dd_map_ph all_HandleProposedHeaderResult);\n"
+                    "   filter (fun r => negb (existsb (N.eqb r) [HandleVoteProofsAccepted; HandleVoteProofsNoNewSignatures; HandleVoteProofsFutureVerified])) (acc aav_map_vote all_HandleVoteProofsResult);\n"
+                    "   filter (fun r => negb (existsb (N.eqb r) [HandleVoteProofsAccepted; HandleVoteProofsFutureVerified])) (acc dd_map_vote all_HandleVoteProofsResult)].\n"
+                    "Print bad. Print names_HandleProposedHeaderResult. Print names_HandleVoteProofsResult.\n")
+            ok, cout = c.coq_eval("c20_mapper_search", body)
+            m = re.search(r"bad\s*=\s*(\[.*?\])\s*\n\s*:\s*list", cout, flags=re.S) if ok else None
+            found = []
+            if m:
+                groups = re.findall(r"\[([^\[\]]*)\]", m.group(1))
+                tables = ["AcceptAllValidFeedbackMapper.HandleProposedHeader", "DropDuplicateFeedbackMapper.HandleProposedHeader",
+                          "AcceptAllValidFeedbackMapper.mapVoteResult", "DropDuplicateFeedbackMapper.mapVoteResult"]
+                for t, g in zip(tables, groups):
+                    for r in re.findall(r"\d+", g):
+                        kind = "HandleProposedHeader" if "ProposedHeader" in t else "HandleVoteProofs"
+                        nm = re.search(r'\(\s*%s(?:%%N)?\s*,\s*"(%s\w+)"' % (r, kind), cout)
+                        found.append((t, int(r), nm.group(1) if nm else "?"))
+            if found:
+                t, r, nm = found[0]
+                c.report("mapper-accepts-unverified:%s" % nm, "%s answers FeedbackAccepted for the result %s (%d), which does not mean that the engine "
+                         "verified the message: a peer wired with this mapper relays a message its handler did not accept" % (t, nm, r),
+                         {"table": t, "result": nm, "value": r, "all_offending": found,
+                          "how": "call the mapper with a FineGrainedConsensusHandler that returns %s; the table is the source text of "
+                                 "tm/tmconsensus/feedbackmapper.go as translated in this run (Gen/Mappers.v)" % nm})
+            else:
+                c.fail_obligation("Properties/C20Mappers.v (%s)" % mb.get("file"), mb.get("log", ""))
     broken = getattr(c, "broken", None)
     # with a failed translation coq/Gen is stale: the model is then not evaluated at all (monitors still are)
     model_ok = tok and c.coq_make(["Model/P2PRelay.vo"])[0]
